@@ -85,6 +85,23 @@ def rule_a(ctx: Context, R: Reporter):
             if m.dst_tag and m.src_tag and m.dst_tag != m.src_tag and m.dst_tag in PARTICLE_FIELDS and m.src_tag in PARTICLE_FIELDS:
                 R.check("C07.a", "source and target of a row move are the same field", False, s.func, m.stmt,
                         msg=f"{s.func.short}: `{m.text[:70]}` moves field '{m.src_tag}' into '{m.dst_tag}'")
+        # the blobs move runs when blobs exist: its guard is not inverted
+        sflow = flow_of(s.func.node)
+        for m in s.moves:
+            if "blobs" not in (m.dst_tag, m.src_tag):
+                continue
+            for (t, pol) in conds_holding_at(sflow.cfg, m.node):
+                for (a, p) in split_cond(t, pol):
+                    txt = norm_text(a)
+                    inverted = False
+                    if isinstance(a, ast.Compare) and len(a.ops) == 1 and isinstance(a.comparators[0], ast.Constant) and a.comparators[0].value is None and "blob" in norm_text(a.left):
+                        inverted = (isinstance(a.ops[0], ast.IsNot) and p is False) or (isinstance(a.ops[0], ast.Is) and p is True)
+                    elif "have_blobs" in txt and isinstance(a, (ast.Name, ast.Attribute)):
+                        inverted = p is False
+                    if inverted:
+                        R.check("C07.a", "the blobs of a record move when blobs exist", False, s.func, m.stmt,
+                                msg=f"{s.func.short}: `{m.text[:50]}` is reached only when `{unparse(a)}` is {p} (inverted guard): with blobs enabled the blobs keep their old rows while "
+                                    f"u/x/logl move", key=f"blobs-guard-inverted:{s.key()}")
         # one source index for all row updates of the site
         src_idx = {m.src_index for m in s.moves if m.dst_index is not None and m.src_index is not None}
         if len(src_idx) > 1:
@@ -107,6 +124,29 @@ def rule_a(ctx: Context, R: Reporter):
                 R.check("C07.a", "a particle field is not moved with a private index", False, s.func, m.stmt,
                         msg=f"{s.func.short}: '{next(iter(of))}' is moved with `{o.index_name}` while {sorted(s.fields())} are moved with `{s.index_name}`",
                         key=f"split-index:{s.key()}:{next(iter(of))}")
+    # state writes of the blobs: not under an inverted have-blobs guard
+    for a in ctx.state.accesses:
+        if a.mode != "write" or a.key != "blobs" or a.func is None:
+            continue
+        fl = flow_of(a.func.node)
+        wn = fl.node_containing(a.call)
+        if wn is None:
+            continue
+        # a literal None written while blobs are disabled is fine
+        if isinstance(a.value, ast.Constant) and a.value.value is None:
+            continue
+        for (t, pol) in conds_holding_at(fl.cfg, wn):
+            for (at_, p) in split_cond(t, pol):
+                txt = norm_text(at_)
+                inverted = False
+                if isinstance(at_, ast.Compare) and len(at_.ops) == 1 and isinstance(at_.comparators[0], ast.Constant) and at_.comparators[0].value is None and "blob" in norm_text(at_.left):
+                    inverted = (isinstance(at_.ops[0], ast.IsNot) and p is False) or (isinstance(at_.ops[0], ast.Is) and p is True)
+                elif "have_blobs" in txt and isinstance(at_, (ast.Name, ast.Attribute)):
+                    inverted = p is False
+                if inverted:
+                    R.check("C07.a", "blobs are stored when blobs exist", False, a.func, a.call,
+                            msg=f"{a.func.short}: `{unparse(a.call)[:50]}` runs only when `{unparse(at_)}` is {p} (inverted guard): with blobs enabled the stored blobs are left over "
+                                f"from before the step", key=f"blobs-write-guard-inverted:{a.func.short}")
     R.analysed["C07.a:field_obligations"] = n_field_obl
 
 
